@@ -48,6 +48,10 @@ Definition pres_comp_is (r : pres comp) (c : comp) : bool :=
   match r with POk d => comp_eqb d c | _ => false end.
 Definition no_panic {A} (r : pres A) : bool := match r with PPanic => false | _ => true end.
 
+(* NameFromBytes(n.Bytes()) observed as r: encodings determine names *)
+Definition brt_ok (n : name) (r : option name) : bool :=
+  match r with Some m => name_eqb m n | None => false end.
+
 (* NameFromStr(n.String()) observed as r *)
 Definition rt_ok (n : name) (r : pres name) : bool :=
   if uri_wfb n then pres_name_is r n else no_panic r.
